@@ -145,6 +145,16 @@ CLAIMED = {
         note=TRUST + ". Graphviz 2.43 is the acceptance oracle and the DOT parser; annotation VALUE texts are not "
              "compared; quick samples the document x option product.",
         ref="3 C15"),
+    "C07": dict(
+        text="(A)+(B) MC_Ser mode rdf generates the PROV-O expressible space as the property states it (every kind but "
+             "mention x masks with the first two formal arguments x identified/anonymous x attribute class x claimed "
+             "value kinds, anonymous 'simple' relations bare, a second record / a non-empty bundle); each document is "
+             "written as TriG and read back; (C) TLC compares per container the SET of records read back with "
+             "UnifiedSpec(source) (written in TLA+ from the statement) and checks that no relation comes back twice.",
+        note=TRUST + ". No TLA+ model of the PROV-O encoder/decoder: the specification contributes the input space, "
+             "UnifiedSpec and the clauses, the verdict comes from the executed round trip. Known finding "
+             "KF-C07-alternate-id excluded by predicate.",
+        ref="3 C07"),
 }
 for _c in CLAIMED.values():
     _c.setdefault("technique", TECH)
